@@ -12,6 +12,8 @@ import (
 	"time"
 
 	"github.com/evstack/ev-node/types"
+	pb "github.com/evstack/ev-node/types/pb/evnode/v1"
+	"google.golang.org/protobuf/proto"
 
 	"verifharness/vk"
 	"verifharness/world"
@@ -68,7 +70,9 @@ func junkCorpus(rng *rand.Rand, p *world.Produced, n int) [][]byte {
 	}
 	st := types.State{ChainID: "x", InitialHeight: 1, LastBlockHeight: 5}
 	for len(out) < n {
-		switch rng.Intn(9) {
+		switch rng.Intn(12) {
+		case 11:
+			out = append(out, world.StructuredJunk(rng, p)...)
 		case 0: // truncation: every length class
 			s := src()
 			cuts := []int{0, 1, 2, len(s) / 2, len(s) - 1, rng.Intn(len(s))}
@@ -98,6 +102,22 @@ func junkCorpus(rng *rand.Rand, p *world.Produced, n int) [][]byte {
 			out = append(out, []byte{0x0a, 0xff, 0xff, 0xff, 0xff, 0xff, 0xff, 0xff, 0xff, 0x7f, 0x01})
 		case 7: // a header blob with the data blob appended
 			out = append(out, append(append([]byte{}, p.HeaderBlob[0]...), src()...))
+		case 9: // the proposer's address in both places, no public key, some signature bytes (raw protobuf)
+			h := p.Header(rng.Intn(len(p.Heights)))
+			sig := make([]byte, 64)
+			rng.Read(sig)
+			if b, err := proto.Marshal(&pb.SignedHeader{Header: h.Header.ToProto(), Signature: sig, Signer: &pb.Signer{Address: p.Keys.Addr}}); err == nil {
+				out = append(out, b)
+			}
+			d := p.Data(rng.Intn(len(p.Heights)))
+			if len(d.Txs) == 0 {
+				d.Txs = types.Txs{types.Tx("junk")}
+			}
+			if b, err := proto.Marshal(&pb.SignedData{Data: d.ToProto(), Signature: sig, Signer: &pb.Signer{Address: p.Keys.Addr}}); err == nil {
+				out = append(out, b)
+			}
+		case 10: // structurally valid protobuf with random subsets of fields present
+			out = append(out, world.StructuredJunk(rng, p)...)
 		case 8: // deeply nested / repeated tags
 			b := bytes.Repeat([]byte{0x0a, 0x02}, 1+rng.Intn(50))
 			out = append(out, b)
@@ -207,9 +227,15 @@ func runCase(r *vk.Run, p *world.Produced, c Case) {
 	da.SetHeight(last)
 	for h, seq := range c.Outcomes {
 		for _, o := range seq {
-			ro := world.RetrieveOutcome{Kind: o}
+			// "<kind>[:<error identity>]"
+			variant := 0
+			if i := strings.IndexByte(o, ':'); i >= 0 {
+				fmt.Sscanf(o[i+1:], "%d", &variant)
+				o = o[:i]
+			}
+			ro := world.RetrieveOutcome{Kind: o, ErrVariant: variant}
 			if strings.HasPrefix(o, "chunkerr") {
-				ro = world.RetrieveOutcome{Kind: "chunkerr", Chunk: int(o[len(o)-1] - '0')}
+				ro = world.RetrieveOutcome{Kind: "chunkerr", Chunk: int(o[len(o)-1] - '0'), ErrVariant: variant}
 			}
 			da.ScriptRetrieve(h, ro)
 		}
@@ -470,11 +496,24 @@ func buildCases(r *vk.Run) []Case {
 		}
 		// the enumerated sequence goes to one height; a second height gets another short one
 		h1 := first + uint64(rng.Intn(c.Heights))
+		// every failing outcome gets one of the error identities a DA client can surface (generic, deadline
+		// exceeded plain / wrapped, the DA interface's sentinels, an RPC transport error)
+		withIdentity := func(seq []string) []string {
+			out := make([]string, len(seq))
+			for k, o := range seq {
+				if o == "listerr" || strings.HasPrefix(o, "chunkerr") {
+					o = fmt.Sprintf("%s:%d", o, rng.Intn(world.RetrieveErrVariants))
+				}
+				out[k] = o
+			}
+			return out
+		}
+		s = withIdentity(s)
 		c.Outcomes[h1] = s
 		if i%4 == 0 {
 			h2 := first + uint64(rng.Intn(c.Heights))
 			if h2 != h1 {
-				c.Outcomes[h2] = seqs[rng.Intn(len(seqs))]
+				c.Outcomes[h2] = withIdentity(seqs[rng.Intn(len(seqs))])
 				if len(c.Outcomes[h2]) > 2 {
 					c.Outcomes[h2] = c.Outcomes[h2][:2]
 				}
